@@ -659,26 +659,18 @@ func (f *Fam) Exec(op string) (string, []common.Failure) {
 			f.poisoned = true
 			return obs, fails
 		}
+		dirty := l.overlay // exactly what this wrapper has set or deleted since its last Write
 		l.overlay = map[string][]byte{}
 		l.clean, l.cleanOK = map[string][]byte{}, map[string]bool{}
-		// propagate into the oracle overlay of the next cache below (through prefixes)
+		// Write hands the dirty entries - and nothing else - to the parent: propagate them into the oracle overlay
+		// of the next cache below (through prefixes); a base store receives them by the real call itself
 		pre := []byte{}
 		for j := ti - 1; j >= 0; j-- {
 			if f.layers[j].kind == "pfx" {
 				pre = append(append([]byte{}, f.layers[j].pre...), pre...)
 			}
 			if f.layers[j].kind == "cache" {
-				// recompute that overlay from its own parent view and the flushed view
-				par := f.view(j)
-				flushed := before
-				for kk := range par {
-					if strings.HasPrefix(kk, string(pre)) {
-						if _, ok := flushed[kk[len(pre):]]; !ok {
-							f.layers[j].overlay[kk] = nil
-						}
-					}
-				}
-				for kk, vv := range flushed {
+				for kk, vv := range dirty {
 					f.layers[j].overlay[string(pre)+kk] = vv
 				}
 				break
